@@ -43,12 +43,13 @@ def build_race2_plan(rng, tier, prop=None):
 		ops.append(op)
 
 	# every property's check spends most of its runs on the state that property is about
-	fam = {"C02": ["mixed", "mixed", "stale-rx", "stale-rx", "stale-rx", "meta", "drop"],
-		"C12": ["mixed", "mixed", "stale-rx", "stale-rx", "stale-rx", "mute-drop", "drop"],
+	fam = {"C02": ["mixed", "rehop", "rehop", "stale-rx", "stale-rx", "meta", "drop"],
+		"C12": ["mixed", "rehop", "rehop", "stale-rx", "stale-rx", "mute-drop", "drop"],
+		"C03": ["mixed", "mixed", "rehop", "stale-rx", "meta", "mute-drop", "drop"],
 		"C10": ["mixed", "meta", "meta", "meta", "meta", "stale-rx", "drop"],
 		"C18": ["mixed", "mute-drop", "mute-drop", "mute-drop", "drop", "drop", "meta"],
-		"C05": ["mixed", "mixed", "drop", "drop", "drop", "meta", "mute-drop"]}.get(prop,
-		["mixed", "mixed", "mixed", "stale-rx", "meta", "mute-drop", "drop"])
+		"C05": ["mixed", "rehop", "rehop", "drop", "drop", "meta", "mute-drop"]}.get(prop,
+		["mixed", "mixed", "rehop", "stale-rx", "meta", "mute-drop", "drop"])
 	family = rng.choice(fam)
 	bts_tx = rng.choice([A, A2])
 	ms_stale = rng.choice([A, A2])
@@ -77,8 +78,21 @@ def build_race2_plan(rng, tier, prop=None):
 	for i in range(5):
 		if ver[i]:
 			cmd(i, "SETFORMAT 1")
-	if ms_hop is not None:
-		cmd(1, "SETFH %d 0 %s" % (rng.choice([0, 5, 17]), " ".join("%d %d" % (ms_hop, B) for _ in range(rng.choice([1, 2, 3])))))
+	def hop_list():
+		# channels on both frequencies: which one the MS listens on depends on the frame number
+		k = rng.choice([2, 2, 3, 4])
+		rxs = [rng.choice([A, A2]) for _ in range(k)]
+		if len(set(rxs)) == 1:
+			rxs[rng.randrange(k)] = A2 if rxs[0] == A else A
+		return "SETFH %d %d %s" % (rng.choice([0, 0, 5, 17]), rng.randrange(k), " ".join("%d %d" % (f, B) for f in rxs))
+
+	ms_fh_cmd = None
+	if family == "rehop":
+		ms_fh_cmd = hop_list()
+		cmd(1, ms_fh_cmd)
+	elif ms_hop is not None:
+		ms_fh_cmd = "SETFH %d 0 %s" % (rng.choice([0, 5, 17]), " ".join("%d %d" % (ms_hop, B) for _ in range(rng.choice([1, 2, 3]))))
+		cmd(1, ms_fh_cmd)
 	recips = [1, 4]
 	for r in recips:
 		# in the "meta" family the windows are mostly randomised ones already (threshold > 0), so
@@ -101,7 +115,7 @@ def build_race2_plan(rng, tier, prop=None):
 	for i in (2, 3, 4, 0, 1):
 		cmd(i, "POWERON", dt=rng.choice([0, 1000]))
 	ops.append({"op": "idle", "dt": rng.randint(2, 5) * P_NS})
-	state = {"bts_tx": bts_tx, "ms_rx": ms_stale, "x_rx": x_rx, "ms_hop": ms_hop, "muted": set()}
+	state = {"bts_tx": bts_tx, "ms_rx": ms_stale, "x_rx": x_rx, "ms_hop": ms_hop, "muted": set(), "fh": ms_fh_cmd}
 
 	def burst(s, adv, dt=0, kind=None, **kw):
 		k = kind or rng.choice(["NB", "NB", "RAND", "SB", "AB", "EDGE"])
@@ -124,7 +138,7 @@ def build_race2_plan(rng, tier, prop=None):
 			cmd(t, "FAKE_DROP %d" % rng.choice([1, 1, 2]))
 		# bursts due in the racing tick and in the frames after it (the latter show what the
 		# racing command left behind: drop credits, windows, tuning)
-		for k in range(rng.choice([1, 2, 3]) if family == "mixed" else 1):
+		for k in range(rng.choice([1, 2, 3]) if family in ("mixed", "rehop") else 1):
 			burst(0, 1, dt=rng.choice([0, 0, 1000]))
 		if rng.random() < (0.4 if family == "mixed" else 0.1):
 			burst(1, 1)
@@ -133,6 +147,13 @@ def build_race2_plan(rng, tier, prop=None):
 		r = rng.random()
 		if family == "stale-rx" and r < 0.7:
 			op = {"op": "cmd", "trx": 1, "text": "POWEROFF", "back": True}
+		elif family == "rehop" and r < 0.85:
+			# the hopping MS is given another hopping configuration (or is powered off) mid-tick
+			if r < 0.7:
+				state["fh"] = hop_list()
+				op = {"op": "cmd", "trx": 1, "text": state["fh"]}
+			else:
+				op = {"op": "cmd", "trx": 1, "text": "POWEROFF", "back": True}
 		elif family == "meta" and r < 0.8:
 			t = rng.choice(recips + [0])
 			if t == 0:
@@ -162,7 +183,8 @@ def build_race2_plan(rng, tier, prop=None):
 		elif r < 0.42:
 			f = rng.choice([A, A2])
 			state["ms_hop"] = f
-			op = {"op": "cmd", "trx": 1, "text": "SETFH %d 0 %s" % (rng.choice([0, 9]), " ".join("%d %d" % (f, B) for _ in range(rng.choice([1, 2]))))}
+			state["fh"] = "SETFH %d 0 %s" % (rng.choice([0, 9]), " ".join("%d %d" % (f, B) for _ in range(rng.choice([1, 2]))))
+			op = {"op": "cmd", "trx": 1, "text": state["fh"]}
 		elif r < 0.54:
 			t = rng.choice(recips)
 			op = {"op": "cmd", "trx": t, "text": rng.choice([
@@ -175,12 +197,12 @@ def build_race2_plan(rng, tier, prop=None):
 			t = rng.choice(recips)
 			n = rng.choice([0, 0, 1, 2, 5])
 			op = {"op": "cmd", "trx": t, "text": "FAKE_DROP %d" % n if rng.random() < 0.8 else "FAKE_DROP %d %d" % (n, rng.choice([1, 2]))}
-		elif r < 0.88:
+		elif r < 0.86:
 			t = rng.choice(recips + [0])
 			v = 0 if t in state["muted"] else 1
 			(state["muted"].discard if v == 0 else state["muted"].add)(t)
 			op = {"op": "cmd", "trx": t, "text": "RFMUTE %d" % v}
-		elif r < 0.93:
+		elif r < 0.96:
 			t = rng.choice(recips)
 			ver_new = rng.choice([0, 1])
 			op = {"op": "cmd", "trx": t, "text": "SETFORMAT %d" % ver_new}
@@ -194,8 +216,8 @@ def build_race2_plan(rng, tier, prop=None):
 		ops.append(op)
 		if back:
 			t = op["trx"]
-			if t == 1 and state["ms_hop"] is not None:
-				ops.append({"op": "cmd", "trx": 1, "dt": 2 * P_NS, "text": "SETFH 0 0 %d %d" % (state["ms_hop"], B)})
+			if t == 1 and state["fh"] is not None:
+				ops.append({"op": "cmd", "trx": 1, "dt": 2 * P_NS, "text": state["fh"]})
 			ops.append({"op": "cmd", "trx": t, "text": "POWERON", "dt": rng.choice([P_NS, 2 * P_NS])})
 		ops.append({"op": "idle", "dt": rng.randint(6, 9) * P_NS})
 	ops.append({"op": "idle", "dt": 4 * P_NS})
@@ -213,7 +235,7 @@ OWN = {
 	"race2.delivered-twice": ["C02", "C03"],
 	"race2.bits": ["C10"],
 	"race2.metadata": ["C10", "C05"],
-	"race2.suppression": ["C18", "C05"],
+	"race2.suppression": ["C18", "C05", "C03"],   # a burst taken from the queue that reaches nobody has vanished
 	"race2.drop-count": ["C18", "C05"],
 }
 
@@ -385,8 +407,9 @@ def check_race2(history, cfg):
 				stats["r2-ambiguous"] += 1
 				pre_unknown[ri] = pre_unknown.get(ri, 0) + 1
 				continue
-			g = groups.setdefault(pick[2].seq, {"b": pick[2], "S": pick[1], "at": {}})
+			g = groups.setdefault(pick[2].seq, {"b": pick[2], "S": pick[1], "at": {}, "idx": []})
 			g["at"].setdefault(ri, []).append(d)
+			g["idx"].append(idx)
 		counts = {}   # R -> [suppressed, delivered, suppressed (period unsure), delivered (period unsure)]
 		unknown = dict(pre_unknown)  # R -> bursts that may have been suppressed at R without a clear trace
 		seen = {g["b"].seq for g in groups.values()}
@@ -397,10 +420,18 @@ def check_race2(history, cfg):
 				for ri in range(n):
 					if ri != si and any(versions[k][1][ri].ver == 0 for k in V):
 						unknown[ri] = unknown.get(ri, 0) + 1
+		tick_V = V
+		all_tx = sorted(idx for _ri, _d, idx in got)
 		for seq, g in sorted(groups.items()):
 			b, si = g["b"], g["S"]
 			if b.fn != fn:
 				continue   # emitted in the tick of another frame: the C03 oracle's business
+			# the clock thread forwards one burst after the other: what it read for this burst it
+			# read after the last datagram of the previous one and before the first datagram that
+			# follows this burst's last one, so only the versions of that stretch count
+			lo_i = max([i for i in all_tx if i < min(g["idx"])] or [tb])
+			hi_i = min([i for i in all_tx if i > max(g["idx"])] or [te])
+			V = [k for k in tick_V if versions[k][0] <= hi_i and ver_end[k] >= lo_i] or tick_V
 			if len(acc_by_key.get((b.fn, b.tn), [])) > 1:
 				stats["r2-ambiguous"] += 1   # two bursts for one slot: which one a NOPE stands for is open
 				for ri in range(n):
@@ -520,6 +551,13 @@ def check_race2(history, cfg):
 				# the command took effect before, between or after this tick's bursts: no verdict on
 				# this tick's bursts, every resulting credit is possible afterwards
 				total = (sum(c) if c else 0) + m
+				if c and c[1] > 0:
+					# a certain candidate came through with its bits: whichever setting it met, old
+					# or new, that setting's credit must have been used up by then
+					k_supp = c[0] + c[2] + m
+					if not (any(x <= k_supp for x in P) or any(nn <= k_supp for nn, _pp in overlap[ri])):
+						bad("race2.drop-count", recipient=model.trx[ri].label(), tick_fn=fn, suppressed=c[0] + c[2], delivered=c[1] + c[3],
+							possible_credits=sorted(P)[:6], racing_fake_drop=[nn for nn, _pp in overlap[ri]])
 				cand = set()
 				for nn, _pp in overlap[ri]:
 					for k in range(total + 1):
